@@ -31,7 +31,7 @@ add(C+"fen::Fen::validate_rank", "call", "core::iter::traits::iterator::Iterator
     "sums at most 8 values of at most 9 (rank matched [PNBRQKpnbrqk1-8]{1,8}) into a u32")
 add(C+"fen::Fen::validate_rank", "assert", "overflow:Sub", 0, "rank matched {1,8}, so rank.len() >= 1")
 add(C+"fen::Fen::validate_rank", "call", VIDX, [0, 1],
-    "rank is ASCII by the character class, so chars.len() == rank.len(); i ranges over 0..len-1, so i and i+1 are <= len-1")
+    "rank is ASCII by the character class, so chars.len() == rank.len(); i ranges over 0..len-1, so i and i+1 are <= len-1", requires="fen_ranks_validated_after_grammar")
 add(C+"fen::Fen::validate_rank", "assert", "overflow:Add", 0, "i < rank.len() - 1 <= 7")
 add(C+"fen::_construct_fen_regex", "call", UNWRAP_R, 0, "constant pattern; a malformed pattern would fail every FEN test of the baseline (lazy_static initialiser, runs once)")
 add(C+"fen::_construct_fen_startpos", "call", UNWRAP_R, 0, "constant start-position string accepted by the grammar (baseline test fen_ok_1)")
